@@ -22,6 +22,7 @@ import (
 //	    d<k>.<k>… DEL   e<k>.<k>… EXISTS   m<k>.<k>… MGET   M<k>:<v>.<k>:<v>… MSET
 //	  cluster events:
 //	    X<n> node n goes down   U<n> comes back (same address, same data)   Z<n> drops its connections
+//	    H<n> node n hangs: its connections are dropped, connects to it time out instead of being refused
 //	    O<k>:<n> the slot of key k now belongs to node n (a resharding the proxy has not heard of)
 //	    G<k>:<n> start migrating the slot of key k to node n   V<k> move key k   N<k> finish that migration
 //	    P<r>:<m> node r is a replica of m   F<r> failover: replica r takes over, its master goes down
@@ -31,6 +32,7 @@ import (
 //	    W wait for the slot refresh to settle   C continue on a new client connection
 //	  -> the replies (canonical value text, '!' + reason when the client connection failed), ',' separated
 //	     | r=<redirections caused by each command> | data=<union of all key spaces>
+//
 // clusterRender renders a reply; errors made by the proxy or the cluster machinery are reduced to their class
 // (their text contains port numbers and varies with timing).
 func clusterRender(v *redis.RespValue) string {
@@ -218,7 +220,7 @@ func clusterRun(f []string) string {
 				}
 				args = append(args, clusterKey(kv[0]), v)
 			}
-		case 'X', 'U', 'Z', 'F':
+		case 'X', 'U', 'Z', 'F', 'H':
 			n, ok := nodeArg(body)
 			if !ok {
 				return "bad-op"
@@ -226,6 +228,10 @@ func clusterRun(f []string) string {
 			switch t[0] {
 			case 'X':
 				fc.Nodes[n].Down()
+			case 'H':
+				if err := fc.Nodes[n].Hang(); err != nil {
+					return "sockerr"
+				}
 			case 'U':
 				if err := fc.Nodes[n].UpAgain(); err != nil {
 					return "sockerr"
@@ -377,7 +383,9 @@ func clusterRun(f []string) string {
 			// next command sees does not depend on a race between the client and the refresh loop
 			// (60 failed attempts in a row without a success: no configured host answers any more, nothing to wait for)
 			failed0 := metric("upstream.slots_refresh.failure_total")
-			hopeless := func() bool { return metric("upstream.slots_refresh.failure_total") >= failed0+60 && refreshes() == okBefore }
+			hopeless := func() bool {
+				return metric("upstream.slots_refresh.failure_total") >= failed0+60 && refreshes() == okBefore
+			}
 			for k := 0; k < 600+int(minRate/(2*time.Millisecond)) && refreshes() == okBefore && !hopeless(); k++ {
 				time.Sleep(2 * time.Millisecond)
 			}
